@@ -137,6 +137,26 @@ def stub_genefinding(record, _options) -> None:
                                     translation="M" + "A" * 9))
 
 
+def stub_genefinding_some(record, _options) -> None:
+    """ A gene finder that comes back empty-handed for every second record (those are then skipped by ensure_cds_info). """
+    if int(record.record_index or 0) % 2 == 0:
+        return
+    stub_genefinding(record, _options)
+
+
+class _GenefindingModule:
+    """ the shape pre_process_sequences expects of a gene finding module; run_on_record must survive pickling """
+    run_on_record = staticmethod(stub_genefinding_some)
+
+    @staticmethod
+    def get_arguments():
+        from antismash.config import args
+        module_args = args.ModuleArgs("genefinding", "genefinding")
+        module_args.add_option("gff3", default="", type=str, help="dummy", dest="gff3")
+        module_args.add_option("tool", default="", type=str, help="dummy", dest="tool")
+        return module_args
+
+
 # ---- materialiser and projection of records --------------------------------------------------------
 GENES = {
     "g1": ([[3, 30]], 1),
@@ -321,7 +341,7 @@ def observe_transport(case: dict, _scratch: str = None) -> dict:
     from antismash.common.subprocessing import parallel_function
     from antismash.config import destroy_config
     via, cpus = case["via"], case["cpus"]
-    dirty = via == "sanitise_sequence"
+    dirty = via in ("sanitise_sequence", "pre_process")
 
     def fresh():
         return [build_record(shape, idx + 1, dirty=dirty) for idx, shape in enumerate(case["shapes"])]
@@ -349,6 +369,24 @@ def observe_transport(case: dict, _scratch: str = None) -> dict:
             destroy_config()
             after = P.result(lambda: parallel_function(partial, ([rec] for rec in fresh()), cpus=cpus, timeout=GENEROUS),
                              [], _project_records)
+        elif via == "pre_process":
+            # the whole pre-processing step (ids, sanitisation and gene finding through the parallel helper with the
+            # configured number of workers) against its steps applied to one record after another in this process
+            from antismash.config import build_config, update_config
+            opts = {"genefinding_tool": "prodigal", "genefinding_gff3": "", "taxon": "bacteria"}
+            partial = functools.partial(record_processing.ensure_cds_info, stub_genefinding_some, **opts)
+            before = []
+            for rec in fresh():
+                destroy_config()
+                before.append(project_record(partial(record_processing.sanitise_sequence(rec))))
+            destroy_config()
+
+            def whole_step():
+                module = _GenefindingModule()
+                options = build_config(["--cpus", str(cpus), "--taxon", "bacteria"], isolated=True, modules=[module])
+                update_config({"triggered_limit": False, "minlength": 0, "limit": -1, "genefinding_tool": "prodigal"})
+                return record_processing.pre_process_sequences(fresh(), options, module)
+            after = P.result(whole_step, [], _project_records)
         else:
             raise MachineryError(f"unknown transport {via}")
     finally:
@@ -565,6 +603,10 @@ def _transport_cases(ctx, rng, shapes):
         for cpus in worker_counts:
             for via in ("echo", "sanitise_sequence", "ensure_cds_info"):
                 cases.append({"op": "transport", "input": {"via": via, "cpus": max(1, cpus), "shapes": batch}, "sampled": False})
+        # the whole pre-processing step: some records without genes in between (the stub finder fills every other one)
+        mixed = [dict(shape, genes=[], areas=[]) if pos % 3 != 2 else shape for pos, shape in enumerate(batch[:8])]
+        for cpus in (1, 2, len(mixed) + 1):
+            cases.append({"op": "transport", "input": {"via": "pre_process", "cpus": cpus, "shapes": mixed}, "sampled": False})
     return cases
 
 
